@@ -1,5 +1,5 @@
-// unit int_leh_gcd_ext (NOT REGISTERED while lehmer.rs:77/:153 is unrepaired: it uses the EXACT contract of lehmer_guess, variant
-// `exact`, which fails on the unchanged tree -- see unit int_leh_guess_exact): integer/src/gcd/lehmer.rs gcd_ext_in_place (C12):
+// unit int_leh_gcd_ext: integer/src/gcd/lehmer.rs gcd_ext_in_place (C12) -- needs the EXACT Jebelean contract of lehmer_guess (leh_guess_exact,
+// proved in unit int_leh_guess since the repair of lehmer.rs:77/:153):
 // g = gcd(lhs, rhs) left in rhs[..ret.0], |b| in lhs[..ret.1], a*lhs + (ret.2 * |b|)*rhs == g for some a (inplace_gcd_ext_post: the
 // contract lib/gcdo_ops_stubs.rs ASSUMES, plus `2 * lhs.len() + 2 <= usize::MAX`).  Loop invariants: same common divisors as
 // (lhs, rhs); lhs == T1*x + T0*y; the signed Bezout relations of x and y (ghost cofactors of lhs); T0 <= T1 (needs the exact guess);
@@ -47,9 +47,9 @@ use super::super::*;
 use super::super::cmp::cmp_in_place;
 use core::mem;
 //@@ CONST integer/lehmer/min_dword_guess_len.rs
-// contracts PROVED in units int_leh_guess_exact (!), int_leh_top, int_leh_step
-//@@ SIG integer/lehmer/lehmer_guess.rs variant=exact
-//@@ SIG integer/lehmer/lehmer_guess_dword.rs variant=exact
+// contracts PROVED in units int_leh_guess, int_leh_top, int_leh_step
+//@@ SIG integer/lehmer/lehmer_guess.rs
+//@@ SIG integer/lehmer/lehmer_guess_dword.rs
 //@@ SIG integer/lehmer/highest_word_normalized.rs
 //@@ SIG integer/lehmer/highest_dword_normalized.rs
 //@@ SIG integer/lehmer/trim_leading_zeros.rs
